@@ -13,6 +13,7 @@ import copy
 import json
 import os
 from . import thread
+from . import lower
 
 _INV = None
 HERE = os.path.dirname(os.path.abspath(__file__))
@@ -154,6 +155,7 @@ class Inliner:
         self.max_depth = max_depth
         self.done = {}
         self.inlined_into = {}   # caller key -> [helper keys]
+        self.lowered = {}        # caller key -> [closure keys spliced by LOWER]
         self.helpers = set()
 
     def body_of(self, key, stack=()):
@@ -166,8 +168,31 @@ class Inliner:
         self.done[key] = body
         return body
 
+    def _closure_of(self, key):
+        """closure lookup for LOWER: the caller's own closure instance (monomorphic tables are keyed by instance), or the
+        closure's polymorphic body (tables keyed otherwise: looked up by path)"""
+        caller = self.table.get(key) or {}
+        ck, cp = caller.get("key"), caller.get("path")
+
+        def look(defpath):
+            if ck and cp and defpath.startswith(cp):
+                c = self.table.get(ck + defpath[len(cp):])
+                if c is not None and c.get("closure"):
+                    return c
+            if self.poly:
+                cs = [c for c in self.table.values() if c.get("path") == defpath and c.get("closure")]
+                if len(cs) == 1:
+                    return cs[0]
+            return None
+        return look
+
     def _run(self, key, body, stack):
         blocks = body["blocks"]
+        if len(stack) <= 2:
+            low = lower.lower_iter_calls(body, self._closure_of(key))
+            if low:
+                self.inlined_into.setdefault(key, []).extend(low)
+                self.lowered.setdefault(key, []).extend(low)
         i = 0
         while i < len(blocks):
             bb = blocks[i]
@@ -282,6 +307,7 @@ def apply_to_facts(F):
         nb = inl.body_of(k)
         if k in inl.inlined_into:
             nb = copy.deepcopy(nb)
+            lower.forward_local_refs(nb)
             n_thr = thread.normalize(nb)
             F.insts[k] = dict(v, body=nb, inlined=sorted(set(inl.inlined_into[k])), threaded=n_thr)
             changed.append(k)
@@ -326,6 +352,7 @@ def apply_to_facts(F):
             nb = inl.body_of(k)
             if k in inl.inlined_into:
                 nb = copy.deepcopy(nb)
+                lower.forward_local_refs(nb)
                 thread.normalize(nb)
                 F.insts[k] = dict(v, body=nb, inlined=sorted(set(inl.inlined_into[k])))
                 changed_set.add(k)
@@ -353,13 +380,16 @@ def apply_to_facts(F):
         kk = by_path.get(p)
         return F.fns.get(kk) if kk else None
     poly_helpers = [k for k, v in F.fns.items() if is_helper(v)]
-    if poly_helpers:
+    if True:
         inl2 = Inliner(F.fns, lookup_fn, policy=is_helper, poly=True)
         for k in list(F.fns):
             if is_helper(F.fns[k]):
                 continue
             nb = inl2.body_of(k)
             if k in inl2.inlined_into:
+                nb = copy.deepcopy(nb)
+                lower.forward_local_refs(nb)
+                thread.normalize(nb)
                 F.fns[k] = dict(F.fns[k], body=nb, inlined=sorted(set(inl2.inlined_into[k])))
         report["poly_helpers"] = sorted(poly_helpers)
     return report
